@@ -238,7 +238,69 @@ fn op_snd(n: usize, len: usize, delay_ms: u64) -> String {
     r.unwrap_or_else(|_| "P".into())
 }
 
+/// `tcps`: as `tcp`, but the receive loop is the connection task's: `recv_frame` is polled inside a `select!` next to a
+/// timer, so a pending receive is dropped and started again while a frame is still arriving in parts (every part of the
+/// stream is written after a pause). What is decoded must not depend on that.
+fn op_tcps(cuts: &str, stream: &[u8]) -> String {
+    let chunks = cuts_to_chunks(cuts, stream);
+    let r = catch(|| {
+        rt().block_on(async move {
+            let listener = tokio::net::TcpListener::bind("127.0.0.1:0").await.unwrap();
+            let addr = listener.local_addr().unwrap();
+            let writer = tokio::spawn(async move {
+                let mut s = tokio::net::TcpStream::connect(addr).await.unwrap();
+                s.set_nodelay(true).unwrap();
+                for c in chunks {
+                    if s.write_all(&c).await.is_err() {
+                        return;
+                    }
+                    let _ = s.flush().await;
+                    tokio::time::sleep(std::time::Duration::from_millis(12)).await;
+                }
+                let _ = s.shutdown().await;
+                tokio::time::sleep(std::time::Duration::from_millis(20)).await;
+            });
+            let (sock, _) = listener.accept().await.unwrap();
+            let mut conn = Connection::new(addr.to_string());
+            conn.with_socket(sock);
+            let mut events: Vec<String> = vec![];
+            let mut tick = tokio::time::interval(std::time::Duration::from_millis(3));
+            let t0 = std::time::Instant::now();
+            loop {
+                if t0.elapsed().as_secs() >= 8 {
+                    events.push("STALL".into());
+                    break;
+                }
+                tokio::select! {
+                    r = conn.recv_frame() => match r {
+                        Ok(Some(f)) => events.push(ev_frame(&f)),
+                        Ok(None) => {
+                            events.push("C".into());
+                            break;
+                        }
+                        Err(rdest::Error::ConnectionReset) => {
+                            events.push("R".into());
+                            break;
+                        }
+                        Err(_) => {
+                            events.push("X".into());
+                            break;
+                        }
+                    },
+                    _ = tick.tick() => {}
+                }
+            }
+            writer.abort();
+            events.join(";")
+        })
+    });
+    r.unwrap_or_else(|_| "P".into())
+}
+
 pub fn run(args: &[&str]) -> String {
+    if args[0] == "tcps" {
+        return op_tcps(args[1], &unhex(args[2]));
+    }
     if args[0] == "snd" {
         return op_snd(args[1].parse().unwrap(), args[2].parse().unwrap(), args[3].parse().unwrap());
     }
@@ -404,7 +466,7 @@ pub fn gen(r: &mut Rng, n: usize) -> Vec<String> {
                     out.push(format!("st {} {}", random_cuts(r, s.len()), hex(&s)));
                 }
             }
-            _ => out.push(format!("tcp {} {}", random_cuts(r, s.len()), hex(&s))),
+            _ => out.push(format!("{} {} {}", if r.coin() { "tcp" } else { "tcps" }, random_cuts(r, s.len()), hex(&s))),
         }
         // level 3: the connection task itself on a stream that the decoder rejects / that ends
         if out.len() % 12 == 0 {
